@@ -15,7 +15,7 @@ func init() {
 	Register("C13", &Info{
 		Run:   runC13,
 		Quick: 3000, Thor: 300000,
-		Rule: "a world = one fingerprint (every parrot by stratum, randomized, generated specs, fingerprinted copies) against (a) the repository or std server capped at each version 1.0-1.3, (b) the reference server acting as a legacy server that negotiates from legacy_version only and ignores supported_versions, at 1.0 / 1.1 / 1.2, (c) the reference server negotiating TLS 1.2 or lower with the RFC 8446 downgrade sentinel in its random; oracle: whenever the client completes, the negotiated version is one its ON-WIRE hello advertised - a member of supported_versions when that extension is present, otherwise within [spec minimum, legacy_version]; with the sentinel and TLS 1.3 on offer the client must abort; non-trivial = the server negotiated (or tried) a version below the client's maximum; distinct = (fingerprint, server kind, version, sentinel)",
+		Rule: "a world = one fingerprint (every parrot by stratum, randomized, generated specs, fingerprinted copies) with a caller Config that may carry its own MinVersion/MaxVersion/ALPN/curves or was used before by a connection of another fingerprint; against (a) the repository or std server capped at each version 1.0-1.3, (b) the reference server acting as a legacy server that negotiates from legacy_version only and ignores supported_versions, at 1.0 / 1.1 / 1.2, (c) the reference server negotiating TLS 1.2 or lower with the RFC 8446 downgrade sentinel in its random; oracle: whenever the client completes, the negotiated version is one its ON-WIRE hello advertised - a member of supported_versions when that extension is present, otherwise within [spec minimum, legacy_version]; with the sentinel and TLS 1.3 on offer the client must abort; non-trivial = the server negotiated (or tried) a version below the client's maximum; distinct = (fingerprint, server kind, version, sentinel)",
 		Assumptions: []string{"the spec minimum of a parrot is read from UTLSIdToSpec (TLSVersMin, or the lowest supported_versions entry, or TLS 1.0)"},
 		Real:        []string{"utls client from /repo", "utls or std server for (a)"},
 		Stub:        []string{"reference server (sim/refsrv) as legacy / sentinel-setting server", "transport, clock, crypto/rand"},
@@ -66,8 +66,21 @@ func runC13(c *Ctx) {
 		rcfg.MaxVersion = ver
 		rcfg.Byz.ForceDowngradeSentinel = true
 	}
-	c.R.Class = fmt.Sprintf("%s/%s %s v=%x peer=%s offered=%x", f.Kind, f.IDI.Name, kind, ver, peerName(peer), of.Versions)
-	sp := &ConnSpec{ID: f.IDI.ID, Spec: f.Spec(), CCfg: negCfg(), Peer: peer, SCfg: scfg, StdCfg: stdcfg, RefCfg: rcfg, Payload: [][]byte{[]byte("ping")},
+	// the caller's Config may carry version bounds of its own, or may have been used by an earlier
+	// connection of another fingerprint: the fingerprint's range is what counts
+	ccfg := negCfg()
+	noise := "caller=golang"
+	if f.IDI.ID != tls.HelloGolang {
+		noise = CallerNoise(ch, ccfg)
+		if ch.Bool(20, "shared-config") {
+			pol := AllParrots[ch.Pick(len(AllParrots), "polluter")]
+			RunConn(c, w, &ConnSpec{Name: "polluter", ID: pol.ID, CCfg: ccfg, Peer: PeerUTLS, SCfg: &tls.Config{Certificates: []tls.Certificate{Cert("ecdsa").U, Cert("rsa").U}, MinVersion: tls.VersionTLS10}, Payload: [][]byte{[]byte("p")}})
+			noise += " shared-after-" + pol.Name
+			c.Fault("shared-config", 1)
+		}
+	}
+	c.R.Class = fmt.Sprintf("%s/%s %s v=%x peer=%s offered=%x %s", f.Kind, f.IDI.Name, kind, ver, peerName(peer), of.Versions, noise)
+	sp := &ConnSpec{ID: f.IDI.ID, Spec: f.Spec(), CCfg: ccfg, Peer: peer, SCfg: scfg, StdCfg: stdcfg, RefCfg: rcfg, Payload: [][]byte{[]byte("ping")},
 		Setup: func(l *simnet.Link) { l.Frag = ch.Bool(30, "frag") }}
 	o := RunConn(c, w, sp)
 	c.Finish(w, true)
